@@ -168,3 +168,14 @@ def register(reg):
         "general linear potentials) in both orders. Known: K9 ('same tetrahedron' shortcut point polygons).",
         "Trusted: numpy linear solves for barycentric coordinates. Blind spot: point polygons of the `same` shortcut (K9).",
         "DESIGN.md section 4 C15")
+
+    reg("C16",
+        "metamorphic runtime monitor on contact_forces (action-reaction, argument swap, common rigid motion, repeat, interleaved role-changing history) and set-equality monitor tree-based vs brute-force broad phase",
+        "432 (quick) / 7 200 (thorough) overlapping body pairs over all 36 factory kind pairs, both bodies generally rotated "
+        "(also equal orientations and axis-aligned stacking), Young's moduli in [1e-2,1e2]: 8 force relations per pair judged "
+        "at 5% of |f| with unchanged intersection flag; find_contact_surface(use_aabb_trees=True) must report exactly the "
+        "brute-force set of intersecting tetrahedron pairs, also when repeated on re-expressed bodies. Known: K19 (frame "
+        "dependence of the narrow phase for axis-aligned stacking, 5-10%).",
+        "Trusted: nothing external; relations compare the library with itself on transformed scenes (bodies rebuilt from "
+        "parameters). Only the force part of the wrenches is judged, as the property states.",
+        "DESIGN.md section 4 C16")
